@@ -374,7 +374,7 @@ func (e *Exec) constructing(ref *Node) bool {
 // M:<maptype>.len : Array Ref Idx
 
 func (e *Exec) mapHeaps(s *State, mt *types.Map) (dom string, keySort string) {
-	keySort = e.mode.leafSort(mt.Key())
+	keySort = e.mapKeySort(mt)
 	if keySort == "" {
 		e.unsupported("map with composite key type %s", mt.Key())
 	}
@@ -445,7 +445,7 @@ func (e *Exec) makeMap(s *State, x *ssa.MakeMap) Value {
 func (e *Exec) lookup(s *State, x *ssa.Lookup) Value {
 	if mt, ok := x.X.Type().Underlying().(*types.Map); ok {
 		m := e.val(s, x.X).(*Node)
-		k := e.val(s, x.Index).(*Node)
+		k := e.keyNode(s, e.val(s, x.Index), mt.Key())
 		v := e.mapGet(s, mt, m, k)
 		e.assumeValInv(s, v, mt.Elem())
 		for _, mi := range e.mapInvsFor(x.X) {
@@ -470,7 +470,7 @@ func (e *Exec) lookup(s *State, x *ssa.Lookup) Value {
 func (e *Exec) mapUpdate(s *State, x *ssa.MapUpdate) {
 	mt := x.Map.Type().Underlying().(*types.Map)
 	m := e.val(s, x.Map).(*Node)
-	k := e.val(s, x.Key).(*Node)
+	k := e.keyNode(s, e.val(s, x.Key), mt.Key())
 	if e.safety {
 		e.addObl(s, e.oblName("safety/nil-map"), "safety", Not(Eq(m, IntLit(0))), x.Pos(), "assignment to entry in nil map")
 	}
@@ -505,7 +505,7 @@ func (e *Exec) mapSet(s *State, mt *types.Map, m, k *Node, val Value) {
 }
 
 func (e *Exec) mapDelete(s *State, mt *types.Map, m *Node, key Value) {
-	k := key.(*Node)
+	k := e.keyNode(s, key, mt.Key())
 	dom, ks := e.mapHeaps(s, mt)
 	dsort := arraySort(ks, "Bool")
 	h := e.heap(s, dom, arraySort(RefSort, dsort))
@@ -528,7 +528,7 @@ type RangeIter struct {
 func (e *Exec) rangeInit(s *State, x *ssa.Range) Value {
 	it := &RangeIter{X: e.val(s, x.X), T: x.X.Type()}
 	if mt, ok := x.X.Type().Underlying().(*types.Map); ok {
-		ks := e.mode.leafSort(mt.Key())
+		ks := e.mapKeySort(mt)
 		key := fmt.Sprintf("$visited:%p", x)
 		s.ghost[key] = zeroOfSort(arraySort(ks, "Bool"))
 		it.Visit = nil
@@ -543,12 +543,19 @@ func (e *Exec) rangeNext(s *State, x *ssa.Next) Value {
 	ok := TS.Fresh("rangeok", "Bool")
 	if mt, isMap := it.T.Underlying().(*types.Map); isMap {
 		m := it.X.(*Node)
-		k := e.freshValue(s, "rangekey", mt.Key()).(*Node)
+		var k *Node
+		if e.mode.leafSort(mt.Key()) != "" {
+			k = e.freshValue(s, "rangekey", mt.Key()).(*Node)
+		} else {
+			k = TS.Fresh("rangekey", e.mapKeySort(mt))
+			e.assumeKeyAxioms(s, mt.Key())
+			e.constrainShape(s, e.keyValue(s, k, mt.Key()))
+		}
 		gk := e.rangeKeys[rng]
 		visited := s.ghost[gk].(*Node)
 		// ok ⇒ key is in the map and not yet visited; !ok ⇒ every key of the map was visited
 		s.assume(Implies(ok, And(e.mapHas(s, mt, m, k), Not(Select(visited, k)))))
-		ks := e.mode.leafSort(mt.Key())
+		ks := e.mapKeySort(mt)
 		q := BoundVar("k!r", ks)
 		s.assume(Implies(Not(ok), Forall([]*Node{q}, Implies(e.mapHas(s, mt, m, q), Select(visited, q)))))
 		s.ghost[gk] = Ite(ok, Store(visited, k, tTrue), visited)
@@ -560,13 +567,85 @@ func (e *Exec) rangeNext(s *State, x *ssa.Next) Value {
 		for _, mi := range e.mapInvsFor(rng.X) {
 			s.assume(Implies(ok, e.asHyp(func() *Node { return e.evalMapInv(mi, s, k, v, mt) })))
 		}
-		return &TupleV{E: []Value{ok, k, v}}
+		return &TupleV{E: []Value{ok, e.keyValue(s, k, mt.Key()), v}}
 	}
 	// string iteration: rune decoding not modelled
 	e.logAbs("range over string: index/rune unconstrained")
 	i := e.freshValue(s, "rangeidx", types.Typ[types.Int])
 	r := e.freshValue(s, "rangerune", types.Typ[types.Int32])
 	return &TupleV{E: []Value{ok, i, r}}
+}
+
+// Struct-typed map keys. Inside the executor a key is an ordinary struct value; at every map
+// operation it is packed into one term of an uninterpreted sort K_T by a constructor mk_K_T whose
+// projections make it a bijection (two quantified axioms, assumed where such a map is used).
+func packedSortName(m Mode, kt types.Type) string {
+	return "K_" + sanitize(typeKey(kt)) + fmt.Sprintf("_%d", int(m))
+}
+
+func (e *Exec) mapKeySort(mt *types.Map) string {
+	if ks := e.mode.leafSort(mt.Key()); ks != "" {
+		return ks
+	}
+	if _, ok := mt.Key().Underlying().(*types.Struct); ok {
+		sn := packedSortName(e.mode, mt.Key())
+		TS.DeclSort(sn)
+		return sn
+	}
+	return ""
+}
+
+func (e *Exec) keyNode(s *State, v Value, kt types.Type) *Node {
+	switch x := v.(type) {
+	case *Node:
+		return x
+	case *StructV:
+		e.assumeKeyAxioms(s, kt)
+		return e.packKey(x, kt)
+	}
+	e.unsupported("map key of unsupported shape %T", v)
+	return nil
+}
+
+// keyValue: the struct value of a packed key (projections), or the key itself for scalar keys.
+func (e *Exec) keyValue(s *State, k *Node, kt types.Type) Value {
+	if e.mode.leafSort(kt) != "" {
+		return k
+	}
+	sn := packedSortName(e.mode, kt)
+	i := 0
+	return e.mode.build(kt, func(li leafInfo) *Node {
+		pf := fmt.Sprintf("proj%d_%s", i, sn)
+		TS.DeclFun(pf, []string{sn}, li.Sort)
+		i++
+		return App(pf, li.Sort, k)
+	})
+}
+
+func (e *Exec) assumeKeyAxioms(s *State, kt types.Type) {
+	sn := packedSortName(e.mode, kt)
+	TS.DeclSort(sn)
+	ls := e.mode.leaves(kt)
+	var sorts []string
+	var bvs []*Node
+	for i, li := range ls {
+		sorts = append(sorts, li.Sort)
+		bvs = append(bvs, BoundVar(fmt.Sprintf("kf%d!k", i), li.Sort))
+	}
+	fn := "mk_" + sn
+	TS.DeclFun(fn, sorts, sn)
+	packed := App(fn, sn, bvs...)
+	var eqs []*Node
+	var projs []*Node
+	kq := BoundVar("kq!k", sn)
+	for i, li := range ls {
+		pf := fmt.Sprintf("proj%d_%s", i, sn)
+		TS.DeclFun(pf, []string{sn}, li.Sort)
+		eqs = append(eqs, Eq(App(pf, li.Sort, packed), bvs[i]))
+		projs = append(projs, App(pf, li.Sort, kq))
+	}
+	s.assume(Forall(bvs, And(eqs...)))
+	s.assume(Forall([]*Node{kq}, Eq(App(fn, sn, projs...), kq)))
 }
 
 // packKey: composite (struct) map keys are packed into one term of an uninterpreted tuple sort via
